@@ -2092,7 +2092,9 @@ SKEL_TARGETS = {"main_loop": ("main_loop.py", "fit_stacked_data", "bayesian_ic",
                 "ng_noop": ("numba_guard.py", "noop_decorator", None, []),
                 "vh_emit": ("_verif.py", "emit", None, []),
                 "vh_add": ("_verif.py", "add_listener", None, []),
-                "vh_clear": ("_verif.py", "clear_listeners", None, [])}
+                "vh_clear": ("_verif.py", "clear_listeners", None, []),
+                # fit_stacked_data once more, as a whole: proved to be its prefix followed by its suffix (so the cut is not trusted)
+                "main_loop_full": ("main_loop.py", "fit_stacked_data", None, [])}
 
 
 def translate_skeleton(mod, src_root):
@@ -2122,6 +2124,8 @@ def translate_skeleton(mod, src_root):
         sk.module_globals |= {n_.name for n_ in tree.body if isinstance(n_, ast.FunctionDef)}
         if "." in name:
             sk.defname = "g_" + name.replace(".", "_").replace("@", "_").replace("__", "_")
+        if mod.endswith("_full"):
+            sk.defname = fname(name) + "_full"          # the whole function, beside its prefix / suffix translations
         text = sk.translate()
         out.append("  (* %s, lines %d-%d (prefix) *)\n  %s\n\nEnd Gen.\n" % (name, funcs[name].lineno, funcs[name].end_lineno, text.replace("\n", "\n  ")))
         return "".join(out), {name: "ok"}
